@@ -31,10 +31,10 @@ Part "family" (SEQ)  the classes of "hist" are all direct subclasses of Componen
   Reference code of a class = the documented subclassing rule (docs/concepts/fundamentals/subclassing_components.md):
   the nearest class of the chain that *defines* js / css wins, independent of the library's attribute lookup.
   Oracle: an announced URL is judged against the code of the class(es) *this step rendered* whose hash it carries
-  (not against "whatever class the hash maps to"): 200 + that class' js / css + content type; a URL announced for a
-  class without such code is a violation; URLs of the family the step did not announce give 404 or the code of every
-  class that carries the hash.  State = (class, kind) entries of the media cache; non-trivial = scripts of at least
-  two related classes cached side by side.
+  (not against "whatever class the hash maps to"): 200 + that class' js / css + content type; a URL announced although
+  no rendered class that carries its hash has such code is a violation; URLs of the family the step did not announce
+  give 404 or the code of every class (with such code) that carries the hash.  State = (class, kind, digest of the
+  cached script) entries of the media cache; non-trivial = scripts of at least two related classes cached side by side.
 Part "shapes" (ENUM)  all classes with js, css in {None, "", blank, code, padded code} x
   document/fragment x first/second render: same oracle.
 Part "requests" (ENUM)  full product hash x kind x input-hash x method in two cache states:
@@ -62,6 +62,7 @@ import json
 import logging
 import re
 import warnings
+import zlib
 from itertools import product
 
 from mc import boot, par, seq
@@ -571,19 +572,22 @@ def _bodies(code):
 
 
 def fam_check_served(w: FamWorld, url, rendered):
-    """An announced URL names every *rendered* class that carries its hash; it must be served with the code of each."""
+    """An announced URL names the *rendered* classes that carry its hash and have such code: served with the code of each."""
     m = URL_RE.match(url)
     owners = [r for r in rendered if m and m.group("input") is None and w.cls[r]._class_hash == m.group("hash")]
     if not owners:
         return f"emitted-unknown: emitted URL {url!r} does not name js/css of a component this step rendered {list(rendered)}"
     kind = m.group("kind")
     status, body, ctype = fetch(url)
-    for r in owners:
+    # rendered together, a class without such code is not what the URL was announced for (hashes are meant to be unique)
+    coded = [r for r in owners if _bodies(w.fam.ref_code(r, kind))]
+    if not coded:
+        return (f"no-code: URL {url} emitted by a render of {'/'.join(owners)}, which has no {kind} "
+                f"(answered {status} with {body[:60]!r})")
+    for r in coded:
         ok = _bodies(w.fam.ref_code(r, kind))
         if status != 200:
             return f"dead-url: URL {url} emitted by a render of {r} answered {status}, expected 200 with {r}'s {kind}"
-        if not ok:
-            return f"no-code: URL {url} emitted by a render of {r}, which has no {kind} (answered 200 with {body[:60]!r})"
         if body not in ok:
             return f"wrong-body: URL {url} emitted by a render of {r} served {body[:60]!r}, expected {r}'s {kind} {ok[-1][:60]!r}"
         if not ctype.startswith(CTYPE[kind]):
@@ -592,7 +596,7 @@ def fam_check_served(w: FamWorld, url, rendered):
 
 
 def fam_check_lapsed(w: FamWorld, url):
-    """A URL of the family this step did not announce: 404, or the code of every class it names; never 5xx."""
+    """A URL of the family this step did not announce: 404, or the code of every class with such code it names; never 5xx."""
     m = URL_RE.match(url)
     kind = m.group("kind")
     owners = [r for r in w.fam.roles if w.cls[r]._class_hash == m.group("hash")]
@@ -602,7 +606,8 @@ def fam_check_lapsed(w: FamWorld, url):
     if status not in (200, 404):
         return f"odd-status: GET {url} ({'/'.join(owners)}.{kind}) answered {status}"
     if status == 200:
-        for r in owners:
+        coded = [r for r in owners if _bodies(w.fam.ref_code(r, kind))]
+        for r in coded or owners:  # no class with such code: the statement is silent, an empty 200 is tolerated
             if body not in (_bodies(w.fam.ref_code(r, kind)) or ("",)):
                 return f"foreign-body: GET {url} ({r}.{kind}) served {body[:60]!r}"
     return None
@@ -649,13 +654,21 @@ def fam_step(w: FamWorld, op):
 
 
 def fam_canon(w: FamWorld):
+    """(class, kind, digest of the cached script) of every media-cache entry of the family (the digest keeps histories
+    apart that fill one entry with different code, should two classes ever share a key)"""
     c = media_cache()
-    return tuple((r, kind) for r in w.fam.roles for kind in ("js", "css") if c.has_key(cache_key(w.cls[r], kind)))
+    out = []
+    for r in w.fam.roles:
+        for kind in ("js", "css"):
+            key = cache_key(w.cls[r], kind)
+            if c.has_key(key):
+                out.append((r, kind, zlib.crc32(str(c.get(key)).encode())))
+    return tuple(out)
 
 
 def _related_cached(key):
     """state in which scripts of at least two classes of the family are cached side by side"""
-    return len({r for r, _ in key}) >= 2
+    return len({r for r, _, _ in key}) >= 2
 
 
 def _fam_bfs_task(arg):
